@@ -224,6 +224,111 @@ Proof.
   - exact HB.
 Qed.
 
+(* the same with the sharper bound that really holds for true additions: less than one unit in the last place *)
+Lemma add_core_same_strict C buf el ml er mr (n : bool) : fmt_ok C -> zlen buf = c_size C ->
+  1 <= el <= 255 -> 1 <= er <= 255 -> el <= er ->
+  2 ^ (mbits C - 1) <= ml < 2 ^ mbits C -> 2 ^ (mbits C - 1) <= mr < 2 ^ mbits C ->
+  (exists e' man, add_core C el (256 * ml) n er (256 * mr) n = (e', man, n)) /\
+  mag_post C true 1 1 (ml * 2 ^ el + mr * 2 ^ er) 1 n (norm3 C buf (add_core C el (256 * ml) n er (256 * mr) n)).
+Proof.
+  intros HC Hlen Hel Her Hle Hml Hmr. pose proof (mbits_ge C HC) as Hg.
+  set (P := 2 ^ (mbits C - 1)) in *. assert (HP : 0 < P) by (apply pow2_pos; lia).
+  assert (H2P : 2 ^ mbits C = 2 * P) by (apply pow2_pred; lia). rewrite H2P in Hml, Hmr.
+  assert (E7 : 2 ^ (mbits C + 7) = 256 * P).
+  { unfold P. replace (mbits C + 7) with (8 + (mbits C - 1)) by lia. rewrite pow2_split by lia. reflexivity. }
+  assert (E8 : 2 ^ (mbits C + 8) = 512 * P).
+  { unfold P. replace (mbits C + 8) with (9 + (mbits C - 1)) by lia. rewrite pow2_split by lia. reflexivity. }
+  set (o := OFF). assert (Ho : 0 <= o) by (unfold o, OFF; lia).
+  destruct (align_facts (256 * ml) el er o ltac:(lia) Ho ltac:(lia)) as (Hdm & Hrem & Hpw & Hpd & Hpel & Hq0).
+  cbv zeta in *. set (d := er - el) in *. set (Ml' := 256 * ml / 2 ^ d) in *. set (rem := (256 * ml) mod 2 ^ d) in *.
+  (* the aligned left mantissa is at most the right magnitude class *)
+  assert (HMl' : Ml' < 512 * P) by (clear - Hdm Hrem Hpd Hml HP; nia).
+  unfold add_core. cbv zeta. rewrite eqb_reflx. cbn [negb andb]. rewrite andb_false_r. cbv iota.
+  rewrite land_low by (unfold d; lia). fold d. fold rem.
+  rewrite Z.shiftr_div_pow2 by (unfold d; lia). fold d. fold Ml'.
+  rewrite (ok_den_upper C HC), E8.
+  set (man0 := Ml' + 256 * mr).
+  assert (Hman0 : 256 * P <= man0 < 1024 * P) by (unfold man0; lia).
+  (* exact sum on the offset scale *)
+  set (Nm := ml * 2 ^ el + mr * 2 ^ er).
+  set (S := 2 ^ (o + 8)). assert (HS : 0 < S) by (apply pow2_pos; lia).
+  assert (Ho8 : S = 256 * 2 ^ o) by (unfold S; rewrite Z.add_comm, pow2_split by lia; reflexivity).
+  assert (Hpo : 0 < 2 ^ o) by (apply pow2_pos; lia).
+  assert (Eel : 2 ^ (el + o) = 2 ^ el * 2 ^ o) by (apply pow2_split; lia).
+  assert (Eer : 2 ^ (er + o) = 2 ^ er * 2 ^ o) by (apply pow2_split; lia).
+  assert (HNS : Nm * S = man0 * 2 ^ (er + o) + rem * 2 ^ (el + o)).
+  { unfold Nm, man0. rewrite Ho8. rewrite Hpw at 1.
+    replace ((Ml' + 256 * mr) * (2 ^ d * 2 ^ (el + o))) with (2 ^ d * Ml' * 2 ^ (el + o) + 256 * mr * (2 ^ d * 2 ^ (el + o))) by lia.
+    rewrite <- Hpw. replace (2 ^ d * Ml') with (256 * ml - rem) by lia. rewrite Eel, Eer. lia. }
+  assert (Hremlt : rem * 2 ^ (el + o) < 2 ^ (er + o)) by (rewrite Hpw; apply Z.mul_lt_mono_pos_r; lia).
+  (* the two branches of the carry give (e', man1) with  man1 * 2^(e'+o) <= Nm S < (man1 + 1) * 2^(e'+o)  *)
+  assert (Hcarry : exists e' man1, (if man0 >=? 512 * P then (er + 1, Z.shiftr man0 1) else (er, man0)) = (e', man1) /\
+            er <= e' <= er + 1 /\ 256 * P <= man1 < 512 * P /\
+            man1 * 2 ^ (e' + o) <= Nm * S < (man1 + 1) * 2 ^ (e' + o) /\
+            (rem = 0 -> man1 * 2 ^ (e' + o) <= Nm * S < man1 * 2 ^ (e' + o) + 2 ^ (e' + o)) /\
+            (rem <> 0 -> man1 * 2 ^ (e' + o) < Nm * S)).
+  { assert (Ht0 : 0 <= rem * 2 ^ (el + o)) by (apply Z.mul_nonneg_nonneg; lia).
+    assert (Htp : rem <> 0 -> 0 < rem * 2 ^ (el + o)) by (intros; apply Z.mul_pos_pos; lia).
+    assert (Hq : 0 < 2 ^ (er + o)) by (apply pow2_pos; lia).
+    destruct (Z.geb_spec man0 (512 * P)) as [Hc|Hc].
+    - exists (er + 1), (man0 / 2). rewrite Z.shiftr_div_pow2 by lia. change (2 ^ 1) with 2.
+      split; [reflexivity|]. split; [lia|]. split; [lia|].
+      replace (er + 1 + o) with (er + o + 1) by lia. rewrite pow2_S by lia. rewrite HNS.
+      assert (Hh : 2 * (man0 / 2) <= man0 <= 2 * (man0 / 2) + 1) by lia.
+      destruct (carry_bounds man0 (man0 / 2) (2 ^ (er + o)) (rem * 2 ^ (el + o)) Hq ltac:(lia) Hh) as (B1 & B2).
+      split; [exact B1|]. split; [intros _; lia|]. intros Hr. apply B2. apply Htp. exact Hr.
+    - exists er, man0. split; [reflexivity|]. split; [lia|]. split; [lia|]. rewrite HNS.
+      split; [lia|]. split; [intros _; lia|]. intros Hr. specialize (Htp Hr). lia. }
+  destruct Hcarry as (e' & man1 & Ecar & He' & Hm1 & Hbr & Hbr0 & Hbr1).
+  destruct (if man0 >=? 512 * P then (er + 1, Z.shiftr man0 1) else (er, man0)) as [e'' man1'] eqn:Eif.
+  injection Ecar as -> ->.
+  (* the tie breaker *)
+  set (man := if negb (rem =? 0) then Z.lor man1 1 else man1).
+  assert (Hman : 256 * P <= man < 512 * P /\ Z.abs (Nm * S - man * 2 ^ (e' + o)) < 2 ^ (e' + o)).
+  { unfold man. set (q := 2 ^ (e' + o)) in *. assert (0 < q) by (unfold q; apply pow2_pos; lia).
+    destruct (Z.eqb_spec rem 0) as [Er|Er]; cbn [negb].
+    - split; [lia|]. specialize (Hbr0 Er). lia.
+    - rewrite lor1 by lia. specialize (Hbr1 Er). destruct (Z.odd man1) eqn:Eo.
+      + split; [lia|]. lia.
+      + assert (man1 <> 512 * P - 1).
+        { intro E. rewrite E in Eo. replace (512 * P - 1) with (1 + 2 * (256 * P - 1)) in Eo by lia.
+          rewrite Z.odd_add_mul_2 in Eo. discriminate. }
+        split; [lia|]. lia. }
+  destruct Hman as [Hmr' Herr].
+  rewrite andb_true_r. fold man.
+  split; [exists e', man; reflexivity|].
+  unfold norm3.
+  assert (Hm0 : 0 < man < c_den_upper C) by (rewrite (ok_den_upper C HC), E8; lia).
+  pose proof (normalise_val C buf e' man n o HC Hlen Hm0 ltac:(lia) Ho) as Hnp.
+  set (r := mbf_normalise C buf e' man n) in *.
+  assert (HSD : S * 1 = 2 ^ (o + 8) * 1) by reflexivity.
+  assert (Hk0 : forall k, (2 ^ (mbits C + 7) - 1 <= man -> k = 0) -> k = 0) by (intros k H; apply H; rewrite E7; lia).
+  assert (HA := norm_partA C true 1 1 Nm 1 n o e' man r S 1 HC Ho HS ltac:(lia) ltac:(lia) HSD ltac:(lia) ltac:(lia) Hnp).
+  assert (HBC := norm_partBC C Nm 1 n o e' man r S 1 HC Ho HS ltac:(lia) ltac:(lia) HSD ltac:(lia) Hnp).
+  assert (HA' : forall b0, r = Ok b0 -> buf_ok C b0 /\
+            (if f_zero b0 then Nm < 2 ^ mbits C * 1
+             else f_neg C b0 = n /\ err_ok true (1 * Z.abs (f_mag C b0 * 1 - Nm)) (1 * 2 ^ f_exp b0 * 1))).
+  { apply HA.
+    - intros k _ _ Hk _. rewrite (Hk0 k Hk). rewrite Z.sub_0_r, !Z.mul_1_r. cbn [err_ok].
+      assert (0 < 2 ^ (e' + o)) by (apply pow2_pos; lia). lia.
+    - intros k _ _ Hk Hek. rewrite (Hk0 k Hk) in Hek. lia. }
+  assert (HBC' : (match r return Prop with
+                  | Host x => x = 5 /\ (2 ^ mbits C - 1) * 2 ^ 255 * 1 < Nm
+                  | Ok _ => True
+                  | _ => False
+                  end) /\ (2 ^ mbits C * 2 ^ 255 * 1 <= Nm -> r = Host 5)).
+  { apply HBC.
+    - intros k _ _ Hk. rewrite (Hk0 k Hk). rewrite Z.pow_0_r, !Z.mul_1_r.
+      assert (0 < 2 ^ (e' + o)) by (apply pow2_pos; lia). lia.
+    - intros k _ _ Hk. rewrite (Hk0 k Hk). rewrite Z.pow_0_r, !Z.mul_1_r.
+      assert (0 < 2 ^ (e' + o)) by (apply pow2_pos; lia). lia. }
+  destruct HBC' as [HB HCv]. split; [|exact HCv].
+  destruct r as [b0|e0|x0|]; try contradiction.
+  - specialize (HA' b0 eq_refl). destruct HA' as [Hok Hrest]. split; [exact Hok|].
+    destruct (f_zero b0); [exact Hrest|]. exact Hrest.
+  - exact HB.
+Qed.
+
 Lemma k0_of_big man k P : 0 < P -> 256 * P <= man -> 0 <= k -> man * 2 ^ k < 512 * P -> k = 0.
 Proof.
   intros HP Hm Hk Hlt. destruct (Z.eq_dec k 0); [assumption|exfalso].
@@ -623,6 +728,161 @@ Proof.
   replace (f_sval C a - f_sval C b) with (f_sval C a + - f_sval C b) by lia.
   rewrite <- (sv_sval C a), <- (sv_sval_neg C b).
   apply add_den_sval; try assumption; try apply Ha; try apply f_man_bound; try assumption.
+  - pose proof (f_exp_bound C a HC Ha). lia.
+  - pose proof (f_exp_bound C b HC Hb). lia.
+Qed.
+
+(* ------------------------------------------------------------------------------------------------ *)
+(* the rounding band above the largest number *)
+
+Lemma band_pos m e M Dn N : 0 < Dn -> 1 <= M -> 1 <= e <= 255 -> 0 <= m <= M ->
+  Z.abs (m * 2 ^ e * Dn - N) < 2 ^ e * Dn -> M * 2 ^ 255 * Dn < N -> m * 2 ^ e = M * 2 ^ 255.
+Proof.
+  intros HDn HM He Hm Herr Hbig.
+  assert (Hpe : 0 < 2 ^ e) by (apply pow2_pos; lia).
+  assert (Hlt : (M * 2 ^ 255 - 2 ^ e) * Dn < m * 2 ^ e * Dn) by lia.
+  assert (Hs : M * 2 ^ 255 - 2 ^ e < m * 2 ^ e) by (apply (Z.mul_lt_mono_pos_r Dn); assumption).
+  destruct (Z.eq_dec e 255) as [->|Hne].
+  - assert ((M - 1) * 2 ^ 255 < m * 2 ^ 255) by lia.
+    assert (M - 1 < m) by (apply (Z.mul_lt_mono_pos_r (2 ^ 255)); assumption).
+    replace m with M by lia. reflexivity.
+  - exfalso. assert (H2 : 2 * 2 ^ e <= 2 ^ 255).
+    { rewrite <- pow2_S by lia. apply pow2_le. lia. }
+    assert (m * 2 ^ e <= M * 2 ^ e) by (apply Z.mul_le_mono_nonneg_r; lia).
+    assert (M * (2 * 2 ^ e) <= M * 2 ^ 255) by (apply Z.mul_le_mono_nonneg_l; lia).
+    assert (2 ^ e <= M * 2 ^ e) by nia. lia.
+Qed.
+
+Lemma band_bytes C b N Dn : fmt_ok C -> buf_ok C b -> 0 < Dn -> f_zero b = false ->
+  Z.abs (f_sval C b * Dn - N) < 2 ^ f_exp b * Dn -> (2 ^ mbits C - 1) * 2 ^ 255 * Dn < Z.abs N ->
+  f_sval C b = (if N <? 0 then -1 else 1) * ((2 ^ mbits C - 1) * 2 ^ 255).
+Proof.
+  intros HC Hb HDn Hz Herr Hbig. pose proof (mbits_ge C HC) as Hg.
+  pose proof (f_man_bound C b HC) as Hm. pose proof (f_exp_bound C b HC Hb) as He.
+  assert (He1 : 1 <= f_exp b) by (unfold f_zero in Hz; lia).
+  assert (HM : 1 <= 2 ^ mbits C - 1).
+  { assert (2 <= 2 ^ mbits C) by (change 2 with (2 ^ 1) at 1; apply pow2_le; lia). lia. }
+  assert (HP : 0 < 2 ^ (mbits C - 1)) by (apply pow2_pos; lia).
+  assert (Hpe : 0 < 2 ^ f_exp b) by (apply pow2_pos; lia).
+  assert (Hp255 : 0 < 2 ^ 255) by (apply pow2_pos; lia).
+  set (M := 2 ^ mbits C - 1) in *. set (mm := f_man C b) in *. set (e := f_exp b) in *.
+  assert (Hmag : f_mag C b = mm * 2 ^ e) by (unfold f_mag; rewrite Hz; reflexivity).
+  assert (Hmpos : 0 < mm * 2 ^ e) by (apply Z.mul_pos_pos; lia).
+  assert (HMD : 0 < M * 2 ^ 255 * Dn) by (apply Z.mul_pos_pos; [apply Z.mul_pos_pos; lia | lia]).
+  rewrite f_sval_mag, Hmag in *.
+  destruct (Z.ltb_spec N 0) as [Hneg|Hpos].
+  - (* negative exact result *)
+    destruct (f_neg C b).
+    + rewrite <- (band_pos mm e M Dn (- N) HDn HM ltac:(lia) ltac:(lia)); [lia | | lia].
+      replace (mm * 2 ^ e * Dn - - N) with (- (- (mm * 2 ^ e) * Dn - N)) by lia. rewrite Z.abs_opp. exact Herr.
+    + exfalso. assert (0 < mm * 2 ^ e * Dn) by (apply Z.mul_pos_pos; lia).
+      assert (2 ^ e * Dn <= 2 ^ 255 * Dn) by (apply Z.mul_le_mono_nonneg_r; [lia | apply pow2_le; lia]).
+      assert (2 ^ 255 * Dn <= M * 2 ^ 255 * Dn) by nia. lia.
+  - destruct (f_neg C b).
+    + exfalso. assert (0 < mm * 2 ^ e * Dn) by (apply Z.mul_pos_pos; lia).
+      assert (2 ^ e * Dn <= 2 ^ 255 * Dn) by (apply Z.mul_le_mono_nonneg_r; [lia | apply pow2_le; lia]).
+      assert (2 ^ 255 * Dn <= M * 2 ^ 255 * Dn) by nia. lia.
+    + rewrite (band_pos mm e M Dn N HDn HM ltac:(lia) ltac:(lia) Herr ltac:(lia)). lia.
+Qed.
+
+
+Lemma sv_bound C e m (n : bool) : fmt_ok C -> 0 <= e <= 255 -> 2 ^ (mbits C - 1) <= m < 2 ^ mbits C ->
+  Z.abs (sv e m n) <= (2 ^ mbits C - 1) * 2 ^ 255 /\ (sv e m n < 0 -> n = true) /\ (0 < sv e m n -> n = false).
+Proof.
+  intros HC He Hm. pose proof (mbits_ge C HC). assert (0 < 2 ^ (mbits C - 1)) by (apply pow2_pos; lia).
+  assert (0 < 2 ^ 255) by (apply pow2_pos; lia).
+  unfold sv. destruct (Z.eqb_spec e 0).
+  - split; [cbn [Z.abs]; nia|]. split; lia.
+  - assert (0 < 2 ^ e) by (apply pow2_pos; lia). assert (2 ^ e <= 2 ^ 255) by (apply pow2_le; lia).
+    assert (0 < m * 2 ^ e) by (apply Z.mul_pos_pos; lia).
+    assert (m * 2 ^ e <= m * 2 ^ 255) by (apply Z.mul_le_mono_nonneg_l; lia).
+    assert (m * 2 ^ 255 <= (2 ^ mbits C - 1) * 2 ^ 255) by (apply Z.mul_le_mono_nonneg_r; lia).
+    destruct n; (split; [lia|]); split; intros; try reflexivity; lia.
+Qed.
+
+Lemma add_core_band C buf el ml (nl : bool) er mr (nr : bool) : fmt_ok C -> zlen buf = c_size C ->
+  1 <= el <= 255 -> 1 <= er <= 255 ->
+  2 ^ (mbits C - 1) <= ml < 2 ^ mbits C -> 2 ^ (mbits C - 1) <= mr < 2 ^ mbits C ->
+  el <= er ->
+  let N := sv el ml nl + sv er mr nr in
+  forall b0, norm3 C buf (add_core C el (256 * ml) nl er (256 * mr) nr) = Ok b0 ->
+  (2 ^ mbits C - 1) * 2 ^ 255 * 1 < Z.abs N ->
+  f_sval C b0 = (if N <? 0 then -1 else 1) * ((2 ^ mbits C - 1) * 2 ^ 255).
+Proof.
+  intros HC Hlen Hel Her Hml Hmr Hle N b0 Eb Hbig.
+  destruct (sv_bound C el ml nl HC ltac:(lia) Hml) as (Bl & Ll & Pl).
+  destruct (sv_bound C er mr nr HC ltac:(lia) Hmr) as (Br & Lr & Pr).
+  destruct (Bool.eqb nl nr) eqn:En.
+  - apply eqb_prop in En. subst nr.
+    destruct (add_core_same_strict C buf el ml er mr nl HC Hlen Hel Her Hle Hml Hmr) as [_ [Hpost _]].
+    rewrite Eb in Hpost. destruct Hpost as [Hok Hrest].
+    assert (Hpl : 0 < 2 ^ el) by (apply pow2_pos; lia). assert (Hpr : 0 < 2 ^ er) by (apply pow2_pos; lia).
+    assert (HP : 0 < 2 ^ (mbits C - 1)) by (pose proof (mbits_ge C HC); apply pow2_pos; lia).
+    assert (HA : 0 < ml * 2 ^ el) by (apply Z.mul_pos_pos; lia). assert (HB : 0 < mr * 2 ^ er) by (apply Z.mul_pos_pos; lia).
+    assert (HN : N = if nl then - (ml * 2 ^ el + mr * 2 ^ er) else ml * 2 ^ el + mr * 2 ^ er).
+    { unfold N, sv. destruct (Z.eqb_spec el 0); [lia|]. destruct (Z.eqb_spec er 0); [lia|]. destruct nl; lia. }
+    assert (Habs : Z.abs N = ml * 2 ^ el + mr * 2 ^ er) by (rewrite HN; destruct nl; lia).
+    destruct (f_zero b0) eqn:Hz.
+    + exfalso. rewrite Habs in Hbig. assert (0 < 2 ^ 255) by (apply pow2_pos; lia).
+      assert (2 ^ mbits C * 1 <= (2 ^ mbits C - 1) * 2 ^ 255 * 1 + 2 ^ 255); [nia|]. 
+      assert (2 <= 2 ^ 255) by (change 2 with (2 ^ 1) at 1; apply pow2_le; lia).
+      assert (1 <= 2 ^ mbits C - 1) by (pose proof (mbits_ge C HC); assert (2 <= 2 ^ mbits C) by (change 2 with (2 ^ 1) at 1; apply pow2_le; lia); lia).
+      nia.
+    + destruct Hrest as [Hn Herr]. cbn [err_ok] in Herr. rewrite !Z.mul_1_l in Herr.
+      apply (band_bytes C b0 N 1 HC Hok ltac:(lia) Hz); [|exact Hbig].
+      rewrite f_sval_mag, Hn, HN. destruct nl.
+      * replace (- f_mag C b0 * 1 - - (ml * 2 ^ el + mr * 2 ^ er)) with (- (f_mag C b0 * 1 - (ml * 2 ^ el + mr * 2 ^ er))) by lia.
+        rewrite Z.abs_opp. exact Herr.
+      * exact Herr.
+  - exfalso. assert (nl <> nr) by (intro; subst; rewrite eqb_reflx in En; discriminate).
+    unfold N in Hbig.
+    assert (Hopp : (sv el ml nl <= 0 /\ 0 <= sv er mr nr) \/ (0 <= sv el ml nl /\ sv er mr nr <= 0)).
+    { destruct nl, nr; try congruence.
+      - left. split; [destruct (Z.le_gt_cases (sv el ml true) 0); [assumption|specialize (Pl ltac:(lia)); discriminate] |
+                      destruct (Z.le_gt_cases 0 (sv er mr false)); [assumption|specialize (Lr ltac:(lia)); discriminate]].
+      - right. split; [destruct (Z.le_gt_cases 0 (sv el ml false)); [assumption|specialize (Ll ltac:(lia)); discriminate] |
+                       destruct (Z.le_gt_cases (sv er mr true) 0); [assumption|specialize (Pr ltac:(lia)); discriminate]]. }
+    lia.
+Qed.
+
+Theorem add_den_band C buf ea ma (na : bool) eb mb (nb : bool) : fmt_ok C -> zlen buf = c_size C ->
+  0 <= ea <= 255 -> 0 <= eb <= 255 ->
+  2 ^ (mbits C - 1) <= ma < 2 ^ mbits C -> 2 ^ (mbits C - 1) <= mb < 2 ^ mbits C ->
+  let N := sv ea ma na + sv eb mb nb in
+  forall b0, norm3 C buf (mbf_add_den C (ea, 256 * ma, na) (eb, 256 * mb, nb)) = Ok b0 ->
+  (2 ^ mbits C - 1) * 2 ^ 255 * 1 < Z.abs N ->
+  f_sval C b0 = (if N <? 0 then -1 else 1) * ((2 ^ mbits C - 1) * 2 ^ 255).
+Proof.
+  intros HC Hlen Hea Heb Hma Hmb N b0. rewrite add_den_unfold.
+  destruct (sv_bound C ea ma na HC Hea Hma) as (Ba & _). destruct (sv_bound C eb mb nb HC Heb Hmb) as (Bb & _).
+  destruct (Z.eqb_spec eb 0) as [Eb0|Eb0].
+  - intros _ Hbig. exfalso. unfold N in Hbig. replace (sv eb mb nb) with 0 in Hbig by (unfold sv; subst eb; reflexivity). lia.
+  - destruct (Z.eqb_spec ea 0) as [Ea0|Ea0].
+    + intros _ Hbig. exfalso. unfold N in Hbig. replace (sv ea ma na) with 0 in Hbig by (unfold sv; subst ea; reflexivity). lia.
+    + destruct ((ea >? eb) || (ea =? eb) && (256 * ma >? 256 * mb)) eqn:Esw.
+      * unfold N. rewrite (Z.add_comm (sv ea ma na)). apply add_core_band; try assumption; lia.
+      * apply add_core_band; try assumption; lia.
+Qed.
+
+Theorem iadd_band C a b b0 : fmt_ok C -> buf_ok C a -> buf_ok C b -> mbf_iadd C a b = Ok b0 ->
+  (2 ^ mbits C - 1) * 2 ^ 255 * 1 < Z.abs (f_sval C a + f_sval C b) ->
+  f_sval C b0 = (if f_sval C a + f_sval C b <? 0 then -1 else 1) * ((2 ^ mbits C - 1) * 2 ^ 255).
+Proof.
+  intros HC Ha Hb. rewrite iadd_norm3, !denormalise_spec by assumption.
+  rewrite <- (sv_sval C a), <- (sv_sval C b).
+  apply add_den_band; try assumption; try apply Ha; try apply f_man_bound; try assumption.
+  - pose proof (f_exp_bound C a HC Ha). lia.
+  - pose proof (f_exp_bound C b HC Hb). lia.
+Qed.
+
+Theorem isub_band C a b b0 : fmt_ok C -> buf_ok C a -> buf_ok C b -> mbf_isub C a b = Ok b0 ->
+  (2 ^ mbits C - 1) * 2 ^ 255 * 1 < Z.abs (f_sval C a - f_sval C b) ->
+  f_sval C b0 = (if f_sval C a - f_sval C b <? 0 then -1 else 1) * ((2 ^ mbits C - 1) * 2 ^ 255).
+Proof.
+  intros HC Ha Hb. rewrite isub_norm3, !denormalise_spec by assumption.
+  replace (f_sval C a - f_sval C b) with (f_sval C a + - f_sval C b) by lia.
+  rewrite <- (sv_sval C a), <- (sv_sval_neg C b).
+  apply add_den_band; try assumption; try apply Ha; try apply f_man_bound; try assumption.
   - pose proof (f_exp_bound C a HC Ha). lia.
   - pose proof (f_exp_bound C b HC Hb). lia.
 Qed.
